@@ -760,9 +760,16 @@ int ftruncate64(int fd, off_t l) {
 int ftruncate(int fd, off_t l) { return ftruncate64(fd, l); }
 
 /* ------------------------------------------------------------------ clock & randomness */
+/* In a world process (the CLI under test) every clock read is simulated. In an engine-B process
+ * the harness itself needs real time (watchdogs, condition-variable timeouts), so the simulated
+ * clock is served only to threads that asked for it - the harness switches it on around each
+ * library call and off inside its own scheduler callback. */
+static __thread int t_clock_sim = 0;
+void vsim_thread_clock(int on) { t_clock_sim = on; }
+
 int clock_gettime(clockid_t clk, struct timespec *ts) {
   vsim_init();
-  if (!g_active || clk == CLOCK_PROCESS_CPUTIME_ID || clk == CLOCK_THREAD_CPUTIME_ID)
+  if (!g_active || !(g_world || t_clock_sim) || clk == CLOCK_PROCESS_CPUTIME_ID || clk == CLOCK_THREAD_CPUTIME_ID)
     return real_clock_gettime(clk, ts);
   pthread_mutex_lock(&g_lock);
   g_clock_calls++;
